@@ -140,6 +140,18 @@ pub fn exec(case: &Value) -> Value {
             vec![("dims", json!([cam.dims.0, cam.dims.1])), ("pix", json!([s(scr.x()), s(scr.y())])),
                  ("q", json!([s(clip.0[0]), s(clip.0[1]), s(clip.0[2]), s(w)]))]
         }
+        "fpd" => {
+            // FirstPerson::default(): used as constructed (mv = 0) or after a translation (mv = 1)
+            let mut fp = FirstPerson::default();
+            if gi(case, "mv") == 1 {
+                let dl = ia(&case["dl"]);
+                fp.translate(vec3(dl[0] as f32, dl[1] as f32, dl[2] as f32));
+            }
+            let m = fp.world_to_view();
+            let ip = m.apply_pt(&fp.pos.to_pt().to());
+            let rows: Vec<Vec<i64>> = (0..3).map(|i| (0..4).map(|j| s(m.0[i][j])).collect()).collect();
+            vec![("M", json!(rows)), ("ipos", json!([s(ip.x()), s(ip.y()), s(ip.z())]))]
+        }
         "fp" => {
             let (pos, t) = (ia(&case["pos"]), ia(&case["t"]));
             // camera at pos * 2^psc, target at an offset t * 2^-tsc from it (all exactly representable):
@@ -247,6 +259,19 @@ pub fn gen(args: &Args, out: &mut dyn Write) {
                 }
             }
         }
+    }
+    // thin view volumes far from the eye (far / near close to 1): the two planes, on the axis
+    for &(n, r) in &[(100i64, 101i64), (1000, 1001), (64, 65), (500, 502), (1000, 1010)] {
+        for &(fnn, fd) in &fs {
+            let c = json!({"fn": fnn, "fd": fd, "an": 1, "ad": 1, "n": n, "r": r});
+            for z in [n, r] {
+                emit(out, json!({"op": "persp", "c": c, "p": [0, 0, z]}));
+            }
+        }
+    }
+    // the default first-person camera, as constructed and after moving it: a rigid view transform
+    for i in 0..(if thorough { 200 } else { 20 }) {
+        emit(out, json!({"op": "fpd", "dl": [rng.range(-3, 3), rng.range(-3, 3), rng.range(-3, 3)], "mv": i % 2}));
     }
     // orthographic boxes and viewports over small integer ranges
     for _ in 0..(if thorough { 200_000 } else { 2_000 }) {
